@@ -170,6 +170,10 @@ class Pool:
             t.join()
         return results
 
+    def close_lane(self, lane: str):
+        for w in self.workers.pop(lane, []):
+            w.stop()
+
     def close(self):
         for ws in self.workers.values():
             for w in ws:
